@@ -201,6 +201,18 @@ func c13Scenario(c *choice.Ctx, rep *report.R, minK, maxK int, rich bool, fullSe
 			wait()
 		}
 	}
+	if stallWrites && k > accepted+1 {
+		// a frame behind the first refused one is read only after the parked REFUSED write completes; by then handlers may have
+		// finished, so it can be within the limit and go to the upstream, which nobody answers any more: let it time out
+		for round := 0; round < 2*k; round++ {
+			hsleep(7 * time.Second)
+			wait()
+			for len(tcpImpl.Parked()) > 0 {
+				tcpImpl.CommitOne(0)
+				wait()
+			}
+		}
+	}
 	out := written()
 	fs, rest := env.SplitFrames(out)
 	if rest != 0 {
@@ -232,6 +244,10 @@ func c13Scenario(c *choice.Ctx, rep *report.R, minK, maxK int, rich bool, fullSe
 			fail("response-missing", fmt.Sprintf("no response for query id %#x (frame %d of %d)", id, i, k))
 		case len(rc) > 1:
 			fail("response-duplicated", fmt.Sprintf("%d responses for query id %#x", len(rc), id))
+		case stallWrites && i > accepted && (rc[0] == 0 || rc[0] == 2 || rc[0] == 5):
+			// with parked writes the reader stalls on the first REFUSED response; whether a later frame is beyond the limit
+			// when it is finally read depends on which handlers have finished by then: accepted (answered or SERVFAIL after
+			// the upstream timeout) and REFUSED are both right
 		case rc[0] != want:
 			fail("wrong-rcode", fmt.Sprintf("query id %#x: rcode %s, expected %s", id, rcodeName(rc[0]), rcodeName(want)))
 		}
